@@ -115,6 +115,23 @@ def impl_meta(case):
                     fail = ('track-read-raises:' + key, 'the bytes of %r read from a track (clip=%r) raised %r' % (m, clip, e))
                 if fail is not None:
                     break
+    if fail is None and mi[0] <= 9 and type(m).__name__ == 'MetaMessage':
+        # the constructor also accepts the type with all, or all but one, of its values left to their defaults: those messages encode and
+        # decode like any other - the second of a type like the first
+        try:
+            first = next((a for a in vars(m) if a not in ('type', 'time')), None)
+            for kw in ({}, {first: getattr(m, first)} if first else {}):
+                d = MetaMessage(m.type, **kw)
+                with meta_charset(sc.CHARSETS[cs]):
+                    bd = d.bytes()
+                    d2 = MetaMessage.from_bytes(bd)
+                if not (len(bd) >= 3 and bd[0] == 0xff) or sc.meta_ints(d2) != sc.meta_ints(d) or set(vars(d)) != set(vars(m)):
+                    if not (mi[0] == 6 and kw and mi[2] >= 32):
+                        fail = ('defaults-differ:' + key, 'MetaMessage(%r, **%r) is %r, encodes to %r and decodes to %r' % (m.type, kw, vars(d), bd[:12], d2))
+        except Exception as e:  # noqa: BLE001
+            text_fail = mi[0] == 1 and any(c > (255 if cs == 0 else 127) for c in mi[3:])
+            if not (text_fail and isinstance(e, ValueError)):
+                fail = ('defaults-raise:' + key, 'MetaMessage(%r) with values left to their defaults: %r' % (m.type, e))
     return out, fail, 'meta%d' % mi[0]
 
 
@@ -164,7 +181,7 @@ def job(j):
                 if len(rec['dis']) < 20:
                     rec['dis'].append((sc.COMP_META_BYTES, c[:80], io[:40], expect[:40]))
         return tag, rec
-    return tag, core.eval_cases(comp, cases, impl_from_bytes)
+    return tag, core.eval_cases(comp, cases, impl_from_bytes, repeat=40)
 
 
 def text_meta(n, cs=0, tb=1):
